@@ -144,13 +144,52 @@ def check_listener(ix, rep, grammars, rule='R-LISTENER'):
                     se = ix.resolve_method(lis, 'syntaxError')
                     body = D.first_stmts(se) if se is not None else []
                     if se is not None and body and isinstance(body[0], ast.Raise) and D.is_rtamt_exception(ix, D.raised_class(ix, se, body[0])):
-                        rep.ok(rule, se.module.rel, se.qual, slot, 'syntaxError unconditionally raises RTAMTException', se.node.lineno)
                         rep.analysed(se)
+                        bad = _deref_of_optional_listener_args(se.node)
+                        if bad:
+                            rep.fail(rule, se.module.rel, se.qual, slot, 'syntaxError dereferences `%s` while building the message: ANTLR reports lexer errors with offendingSymbol=None '
+                                     '(and some parser errors with e=None), so an illegal character raises AttributeError instead of RTAMTException' % ast.unparse(bad), bad.lineno)
+                        else:
+                            rep.ok(rule, se.module.rel, se.qual, slot, 'syntaxError unconditionally raises RTAMTException', se.node.lineno)
                     else:
                         rep.fail(rule, lis.module.rel, lis.name + '.syntaxError', slot, 'the listener\'s syntaxError does not unconditionally raise RTAMTException', lis.node.lineno)
     if nsite == 0:
         raise AnalysisError('no ast_factory(...) call site found')
     return nsite
+
+
+def _deref_of_optional_listener_args(fn):
+    """first attribute/subscript/call on the offendingSymbol or e parameter of syntaxError that no None test protects"""
+    params = [a.arg for a in fn.args.args]
+    if len(params) < 7:
+        return None
+    optional = {params[2], params[6]}
+    parents = {}
+    for p in ast.walk(fn):
+        for c in ast.iter_child_nodes(p):
+            parents[id(c)] = p
+    for n in ast.walk(fn):
+        base = None
+        if isinstance(n, (ast.Attribute, ast.Subscript)) and isinstance(n.value, ast.Name) and n.value.id in optional:
+            base = n.value.id
+        if base is None:
+            continue
+        # protected by an enclosing test that mentions the name (if x is not None / x and ... / ... if x else ...)
+        q = parents.get(id(n))
+        child = n
+        ok = False
+        while q is not None and q is not fn:
+            if isinstance(q, (ast.If, ast.IfExp)) and child is not q.test and any(isinstance(m_, ast.Name) and m_.id == base for m_ in ast.walk(q.test)):
+                ok = True
+                break
+            if isinstance(q, ast.BoolOp) and isinstance(q.op, ast.And) and any(isinstance(m_, ast.Name) and m_.id == base for v in q.values if v is not child for m_ in ast.walk(v)):
+                ok = True
+                break
+            child = q
+            q = parents.get(id(q))
+        if not ok:
+            return n
+    return None
 
 
 def _resolve_value(ix, m, arg, call):
@@ -1152,4 +1191,54 @@ def check_builder_exhaustive(ix, rep, grammars, rule='R-GRAM'):
                     rep.ok(rule, f.module.rel, f.qual, slot, 'builds %s' % sorted(built), f.node.lineno)
                 else:
                     rep.fail(rule, f.module.rel, f.qual, slot, 'the builder of #%s constructs %s; the alternative denotes %s' % (a.label, sorted(built) or 'no node', sorted(want)), f.node.lineno)
+    return n
+
+
+def check_interval_guard_units(ix, rep, rule='R-GUARD-DOM'):
+    """the begin <= end guard compares the bounds as the durations the monitors will use: a bound without unit takes the other bound's
+    unit, else the default unit -- the same resolution as both time_unit_transformer functions (R-DIM in C08)"""
+    from sa.rules import units as UN
+    from sa import alg
+    ltl, stl, absast = parser_classes(ix)
+    f = stl.methods.get('visitInterval')
+    n = 0
+    for b_empty in (False, True):
+        for e_empty in (False, True):
+            case = 'begin_unit=%s,end_unit=%s' % ('absent' if b_empty else 'present', 'absent' if e_empty else 'present')
+            run = UN.TransformerRun(f, b_empty, e_empty)
+            guard = None
+            try:
+                for st in f.node.body:
+                    if isinstance(st, ast.Assign) and isinstance(st.targets[0], ast.Tuple) and len(st.targets[0].elts) == 2 and isinstance(st.value, ast.Call) \
+                            and 'intervalTime' in ast.unparse(st.value):
+                        which = 'b' if 'intervalTime(0)' in ast.unparse(st.value).replace(' ', '') else 'e'
+                        vn, un = [e.id for e in st.targets[0].elts]
+                        run.nums[vn] = alg.RatFun.sym(which)
+                        run.units[un] = ('EMPTY' if (b_empty if which == 'b' else e_empty) else ('B' if which == 'b' else 'E'))
+                        continue
+                    if isinstance(st, ast.If) and isinstance(st.test, ast.Compare) and len(st.test.ops) == 1 and isinstance(st.test.ops[0], (ast.Gt, ast.Lt, ast.GtE, ast.LtE)) \
+                            and st.body and isinstance(st.body[-1], ast.Raise):
+                        guard = st
+                        break
+                    run.stmt(st)
+            except (AnalysisError, ValueError) as ex:
+                rep.error('%s (%s): guard of visitInterval not interpreted (%s)' % (f.where, f.qual, ex))
+                return n
+            if guard is None:
+                continue     # reported by the dominance rule
+            n += 1
+            l, _ = run.num_of(guard.test.left)
+            r, _ = run.num_of(guard.test.comparators[0])
+            if isinstance(guard.test.ops[0], (ast.Lt, ast.LtE)):
+                l, r = r, l          # normalise to  lower ? upper
+            ub, ue = UN.expected_unit('b', b_empty, e_empty), UN.expected_unit('e', b_empty, e_empty)
+            wl = alg.RatFun.sym('b') * alg.RatFun.sym('U[%s]' % ub)
+            wr = alg.RatFun.sym('e') * alg.RatFun.sym('U[%s]' % ue)
+            slot = 'begin<=end:units:%s' % case
+            # both sides may be scaled by one common positive factor
+            if (l * wr).same(r * wl) and not l.same(alg.RatFun.const(0)):
+                rep.ok(rule, f.module.rel, f.qual, slot, 'compares begin*U[%s unit] with end*U[%s unit]' % (ub, ue), guard.lineno)
+            else:
+                rep.fail(rule, f.module.rel, f.qual, slot, 'with %s the guard compares %r with %r; the monitors read the bounds as begin*U[%s] and end*U[%s] (B/E = unit written on the '
+                         'lower/upper bound, D = default unit): an interval whose lower bound exceeds its upper bound is accepted, or a legal one rejected' % (case, l, r, ub, ue), guard.lineno)
     return n
